@@ -1,6 +1,7 @@
 #!/bin/bash
 # seed_regress.sh [tier] : every seeded change under /verif/seeded must be reported (exit 1) by its property's check.
 # Applies each patch to /repo's working tree, runs the check, undoes the patch. /repo must be clean and idle.
+export VERIF_EVIDENCE_DIR=/verif/out/experiment-evidence   # never overwrite the committed evidence from a modified tree
 T=${1:-quick}
 git -C /repo status --porcelain | grep -v '^??' | grep . && { echo "/repo not clean"; exit 2; }
 fail=0
